@@ -9,3 +9,5 @@ open Neutrino.Disp
 #print axioms C12_success_all_partial
 #print axioms C12_success_all
 #print axioms C12_subs_recorded
+#print axioms C12_rank_scores
+#print axioms C12_score_moves
